@@ -40,6 +40,9 @@ type c04Acct struct {
 type c04CredInfo struct {
 	cred   committee.UnauthenticatedCredential
 	weight uint64 // weight of a correctly signed vote of this account in this (r,p,s); 0 = not a valid voter
+	// probeOK: the single-vote path accepted a correctly signed vote of this account (must be false for accounts that
+	// are ineligible by construction)
+	probeOK bool
 }
 
 type c04World struct {
@@ -111,15 +114,15 @@ func c04Worlds() []*c04World {
 		for i := 0; i < 17; i++ {
 			st = append(st, 2_000_000+uint64(i*i)*90_000)
 		}
-		st = append(st, 3_000_000, 0, 2)
-		c04WorldList = append(c04WorldList, c04MakeWorld("W1", 1, protocol.ConsensusCurrentVersion, st, c04Kinds(18, "offline", "zero", "dust"), 4))
+		st = append(st, 3_000_000, 0, 2, 9_000_000, 9_000_000)
+		c04WorldList = append(c04WorldList, c04MakeWorld("W1", 1, protocol.ConsensusCurrentVersion, st, c04Kinds(18, "offline", "zero", "dust", "expired", "future"), 6))
 		// W2: 10 equal stakes under the first protocol version (other thresholds, legacy credential hashing)
 		st = []uint64{}
 		for i := 0; i < 10; i++ {
 			st = append(st, 10_000_000)
 		}
-		st = append(st, 10_000_000, 0)
-		c04WorldList = append(c04WorldList, c04MakeWorld("W2", 2, protocol.ConsensusV7, st, c04Kinds(10, "offline", "zero"), 3))
+		st = append(st, 10_000_000, 0, 10_000_000, 10_000_000)
+		c04WorldList = append(c04WorldList, c04MakeWorld("W2", 2, protocol.ConsensusV7, st, c04Kinds(10, "offline", "zero", "expired", "future"), 5))
 	})
 	return c04WorldList
 }
@@ -128,6 +131,21 @@ func (w *c04World) sign(i int, rv rawVote) crypto.OneTimeSignature {
 	proto := config.Consensus[w.ver]
 	id := basics.OneTimeIDForRound(rv.Round, w.accts[i].ots.KeyDilution(proto.DefaultKeyDilution))
 	return w.accts[i].ots.Sign(id, rv)
+}
+
+// eligible: by construction of the world, may account i cast a valid vote in round r at all? (offline, no stake, voting
+// keys expired after round 2, voting keys valid from round 5 on). Dust accounts are eligible but practically never
+// selected.
+func (w *c04World) eligible(i int, r basics.Round) bool {
+	switch w.accts[i].kind {
+	case "offline", "zero":
+		return false
+	case "expired":
+		return r <= 2
+	case "future":
+		return r >= 5
+	}
+	return true
 }
 
 var c04ProbeValue = proposalValue{BlockDigest: crypto.Digest{0xC0, 0x04}}
@@ -149,7 +167,10 @@ func (w *c04World) creds(r basics.Round, p period, s step) []c04CredInfo {
 		rv := rawVote{Sender: a.addr, Round: r, Period: p, Step: s, Proposal: c04ProbeValue}
 		uv := unauthenticatedVote{R: rv, Cred: res[i].cred, Sig: w.sign(i, rv)}
 		if v, err := uv.verify(w.l); err == nil {
-			res[i].weight = v.Cred.Weight
+			res[i].probeOK = true
+			if w.eligible(i, r) {
+				res[i].weight = v.Cred.Weight
+			}
 		}
 	}
 	w.cache[k] = res
@@ -498,7 +519,7 @@ var c04Muts = []c04Mut{
 	{"add-ineligible-voter", true, func(c *c04Case) string {
 		// a correctly signed vote, with a genuine VRF proof, from an account that is offline / has no stake / was not
 		// selected / whose voting keys are not valid in this round
-		var cand []int
+		cand := map[string][]int{}
 		used := map[basics.Address]bool{}
 		for _, v := range c.ub.Votes {
 			used[v.Sender] = true
@@ -508,13 +529,19 @@ var c04Muts = []c04Mut{
 		}
 		for i := range c.w.accts {
 			if c.creds[i].weight == 0 && !used[c.w.accts[i].addr] {
-				cand = append(cand, i)
+				cand[c.w.accts[i].kind] = append(cand[c.w.accts[i].kind], i)
 			}
 		}
 		if len(cand) == 0 {
 			return ""
 		}
-		a := cand[rapid.IntRange(0, len(cand)-1).Draw(c.t, "acct")]
+		kinds := make([]string, 0, len(cand))
+		for k := range cand {
+			kinds = append(kinds, k)
+		}
+		sort.Strings(kinds)
+		kind := kinds[rapid.IntRange(0, len(kinds)-1).Draw(c.t, "kind")]
+		a := cand[kind][rapid.IntRange(0, len(cand[kind])-1).Draw(c.t, "acct")]
 		if rapid.Bool().Draw(c.t, "asPair") {
 			c.ub.EquivocationVotes = append(c.ub.EquivocationVotes, c.signedPair(a, c.alt[0], c.alt[1]))
 		} else {
@@ -552,6 +579,19 @@ var c04Muts = []c04Mut{
 	}},
 }
 
+// c04MutPick: index list used to choose a mutation kind; the ineligible-voter class has five sub-kinds and is listed
+// four times.
+var c04MutPick = func() []int {
+	var l []int
+	for i, m := range c04Muts {
+		l = append(l, i)
+		if m.name == "add-ineligible-voter" {
+			l = append(l, i, i, i)
+		}
+	}
+	return l
+}()
+
 type c04Result struct {
 	nontrivial bool
 	fp         string
@@ -568,6 +608,12 @@ func c04RunCase(t *rapid.T, vk *vkCtx, avv *AsyncVoteVerifier) (res c04Result, v
 	proto := config.Consensus[w.ver]
 	T := c04Threshold(proto, c.s)
 	c.creds = w.creds(c.r, c.p, c.s)
+
+	for i := range w.accts {
+		if c.creds[i].probeOK && !w.eligible(i, c.r) {
+			return res, fmt.Sprintf("a correctly signed vote of an ineligible account (%s) was verified: world %s round %d period %d step %d", w.accts[i].kind, w.name, c.r, c.p, c.s)
+		}
+	}
 
 	// value: for cert, the digest of a real block of that round; bottom sometimes (legal from the first next step on;
 	// for soft/cert it is the "bottom in a cert" class and invalidates the bundle although every vote is well signed)
@@ -695,7 +741,7 @@ func c04RunCase(t *rapid.T, vk *vkCtx, avv *AsyncVoteVerifier) (res c04Result, v
 	usedKinds := map[string]bool{}
 	var muts []string
 	for k := 0; k < nm; k++ {
-		m := c04Muts[rapid.IntRange(0, len(c04Muts)-1).Draw(t, "mut")]
+		m := c04Muts[c04MutPick[rapid.IntRange(0, len(c04MutPick)-1).Draw(t, "mut")]]
 		if usedKinds[m.name] {
 			continue
 		}
@@ -722,6 +768,9 @@ func c04RunCase(t *rapid.T, vk *vkCtx, avv *AsyncVoteVerifier) (res c04Result, v
 	vk.Labelf("mutations=%d", len(muts))
 	for _, m := range muts {
 		vk.Label("mut:" + m[:strings.Index(m, "(")])
+		if strings.HasPrefix(m, "add-ineligible-voter") {
+			vk.Label("ineligible:" + m[strings.Index(m, "(")+1:len(m)-1])
+		}
 	}
 	if c.val == bottom {
 		vk.Label("value=bottom")
